@@ -357,8 +357,8 @@ def bounded_lex(ctx, T):
              "/**/ x", "/*****/ x", "/* * */", "/* a */ // b\n c"]
 
     def run():
-        r = native.one({"cmd": "lex_diff", "pool": core if ctx.tier == "quick" else want, "maxlen": 3 if ctx.tier == "quick" else 3, "texts": texts}, timeout=3000)
-        return r["failures"], {"evaluations": r["evaluations"], "bound": "all strings of length <= 3 over %d characters + %d hand-picked texts" % (len(core if ctx.tier == "quick" else want), len(texts))}
+        r = native.one({"cmd": "lex_diff", "pool": core, "maxlen": 3 if ctx.tier == "quick" else 4, "texts": texts}, timeout=3000)
+        return r["failures"], {"evaluations": r["evaluations"], "bound": "all strings of length <= %d over %d characters + %d hand-picked texts" % (3 if ctx.tier == "quick" else 4, len(core), len(texts))}
     def run_trivia():
         r = native.one({"cmd": "trivia_diff", "seed": ctx.seed, "random_variants": 20 if ctx.tier == "quick" else 200}, timeout=3000)
         return r["failures"], {"evaluations": r["evaluations"], "programs": r["programs"], "bound": r["bound"]}
